@@ -65,14 +65,20 @@ theorem no_data_beyond_final (ops : FlowOps F) (fc : F) (hist : List (Op (F := F
   have b := (h2.slice fr' (by simpa using h')).2
   omega
 
+/- FULL statement (`final_size_stable_and_ge_sent`): for every history of the send stream, all
+   announcements of a final size — FIN frames AND the RESET_STREAM — carry the same value, and it
+   is ≥ the end of every STREAM frame of the history.
+   Proved below (`…_partial`): the statement for FIN frames. Missing: the RESET_STREAM final size
+   lives in the flow controller (`acquired_connection_flow_controller_window`,
+   `QuicModel.Stream.SendFlow`), where it is shown to be ≥ everything the stream sent and within
+   the limits (`C03.stream_frame_within_limits`, `C03.reset_final_size_within_limits`, invariant
+   `Good.sentAcq`); that it EQUALS the size announced by an earlier FIN needs the composition of
+   both component models ("a FIN is only sent once `transmission_offset = total_len`, hence
+   `acquired = total_len`") and is checked on real traces by the acceptor
+   (`accepted_trace_satisfies_C12`: `final-size-changed`), not proved for the component models. -/
 /-- the final size announced by FIN frames never changes (all FIN frames end at the same offset)
-    and is never smaller than data already (or later) sent.
-    PARTIAL w.r.t. RESET_STREAM: the final size of a RESET_STREAM is the flow controller's acquired
-    window (`QuicModel.Stream.SendFlow`), shown there to be ≥ everything sent and within the limits
-    (`C03.stream_frame_within_limits`, `C03.reset_final_size_within_limits`); that it EQUALS the
-    size announced by an earlier FIN is checked on real traces by the acceptor
-    (`accepted_trace_satisfies_C12`), not proved for the composed component models. -/
-theorem final_size_stable_and_ge_sent (ops : FlowOps F) (fc : F) (hist : List (Op (F := F)))
+    and is never smaller than data already (or later) sent. -/
+theorem final_size_stable_and_ge_sent_partial (ops : FlowOps F) (fc : F) (hist : List (Op (F := F)))
     (fr fr' : Frame) (h : fr ∈ allFrames (run ops (initStream fc) hist).2)
     (h' : fr' ∈ allFrames (run ops (initStream fc) hist).2) (hfin : fr.fin = true) :
     (fr'.fin = true → fr'.stop = fr.stop) ∧ fr'.stop ≤ fr.stop := by
